@@ -26,6 +26,13 @@ GSpec == GInit /\ [][GNext]_gvars
 Parked == \E k \in 1..MaxLen : tm[k] = "fired"
 GoalLateAfterClose == ~(closed /\ closeReq /\ Parked)
 GoalLateAfterEOF == ~(closed /\ ~closeReq /\ Parked)
+(* The run loop reads a printable character after the timer of the pending ESC has run out but   *)
+(* before its callback has taken the mutex (RHand): it reports the key press itself and must      *)
+(* handle the character from the ground state.  The shortest behaviour reaching that hand-over,   *)
+(* followed by the character's handling and then the parked callback's steps, is replayed.        *)
+(* The character comes after a long gap, so that the Escape key is due whatever the schedule (a   *)
+(* timer that fires during a stall before a promptly following character is judged leniently).     *)
+GoalExpiredByte == ~(rpc = "hand" /\ sym \in {91, 65} /\ rd \in DOMAIN inp /\ inp[rd].gap = "long")
 
 EmitSched == (Finished \/ panic) =>
           PrintT("SCHED " \o ToJson([inp |-> inp, eofGap |-> eofGap, acts |-> hist, panic |-> panic, clobber |-> clobber]))
